@@ -364,13 +364,19 @@ def _r1(ctx):
             ctx.bad("R1", key, (FILE, rets[0].line), "generated statement has the wrong guard shape",
                     expected=want[(has_lo, has_hi)].replace("(?P<", "<").replace(r">H\d+_)", ">"), found=lw.text)
             continue
-        hv = {k: (x[1] if x[0] == "fmt" and x[2] is None else x) for k, x in lw.holes.items()}
+        # (`%d` / `{:d}` of the integer counter prints what `{}` prints)
+        hv = {k: (x[1] if x[0] == "fmt" and (x[2] is None or (x[2] == "d" and x[1][0] == "idx")) else x) for k, x in lw.holes.items()}
         g = m.groupdict()
         probs = []
         if hv[g["s"]] != ("param", "rate_sym"):
             probs.append(f"array symbol is {show(hv[g['s']])}")
+        opens = []
         if hv[g["i"]] != idx:
-            probs.append(f"index is {show(hv[g['i']])}, not the enumerate counter of the same reaction")
+            iv = hv[g["i"]]
+            # positive evidence: a constant, another counter, arithmetic on a counter; anything else (a helper's result, a formatted value
+            # the rule does not read) is not understood
+            seen = iv[0] in ("const", "idx", "carried", "param") or (iv[0] == "binop" and any(isinstance(x, tuple) and x and x[0] in ("idx", "carried") for x in walk(iv)))
+            (probs if seen else opens).append(f"index is {show(iv)}, not the enumerate counter of the same reaction")
         if "lo" in g and g.get("lo") and hv[g["lo"]] != ("attr", r, "temp_min"):
             probs.append(f"lower bound is {show(hv[g['lo']])}")
         if "hi" in g and g.get("hi") and hv[g["hi"]] != ("attr", r, "temp_max"):
@@ -385,6 +391,9 @@ def _r1(ctx):
         lv = leaves(simp(e))
         if not lv or any(not (isinstance(x, tuple) and len(x) == 5 and x[0] == "meth" and x[2] == "rateexpr" and x[1] == r) for x in lv):
             probs.append(f"rate expression is {show(e)[:80]}, not rateexpr() of the same reaction")
+        if opens and not probs:
+            ctx.unrec("R1", key, (FILE, rets[0].line), "cannot read the subscript of the generated statement: " + "; ".join(opens))
+            continue
         ctx.check(not probs, "R1", key, (FILE, rets[0].line),
                   f"{names[(has_lo, has_hi)]}: {lw.text!r}" if not probs else "; ".join(probs),
                   found=lw.text)
